@@ -49,6 +49,7 @@ func runC01(c *Ctx) {
 	c01who(c, m)
 	c01counters(c, m)
 	c01close(c, m)
+	c01retry(c, m)
 }
 
 // hasPromisedRecArg: some argument has type promisedRec.
@@ -61,6 +62,64 @@ func hasPromisedRecArg(info *types.Info, call *ast.CallExpr) bool {
 		}
 	}
 	return false
+}
+
+// c01retry: a batch whose request failed is either failed (its promises run) or
+// rewound so that it is sent again; on no path of the per-batch retry handler is
+// the owner's first batch left drained-but-unsent (its promise would never run).
+func c01retry(c *Ctx, m *Module) {
+	rule := "retry-rewinds-or-fails"
+	f := c.NeedFunc(m, "kgo.sink.handleRetryBatches")
+	if f == nil {
+		return
+	}
+	info := f.Info()
+	var lit *ast.FuncLit
+	for _, call := range callsNamed(f.Decl.Body, info, "eachOwnerLocked", false) {
+		if len(call.Args) == 1 {
+			lit, _ = call.Args[0].(*ast.FuncLit)
+		}
+	}
+	if lit == nil {
+		c.Undecided(rule, f.Key+"#per-batch closure", f.Pos(), m, "retry.eachOwnerLocked(func...) not found")
+		return
+	}
+	g := f.LitGraph(lit)
+	// the "not the owner's first batch" early return is the only exit that may skip the rewind
+	var firstIf *ast.IfStmt
+	for _, st := range lit.Body.List {
+		if ifs, ok := st.(*ast.IfStmt); ok && nosp(exprStr(ifs.Cond)) == "!batch.isOwnersFirstBatch()" {
+			firstIf = ifs
+		}
+	}
+	if firstIf == nil {
+		c.Undecided(rule, f.Key+"#first-batch test", lit.Pos(), m, "the `!batch.isOwnersFirstBatch()` early return was not found")
+		return
+	}
+	cl, _ := g.LocOf(firstIf.Cond)
+	condBlk := g.C.Blocks[cl.B]
+	settles := func(n ast.Node) bool {
+		if _, isDefer := n.(*ast.DeferStmt); isDefer {
+			return false
+		}
+		return containsNode(n, false, func(y ast.Node) bool {
+			call, ok := y.(*ast.CallExpr)
+			if !ok {
+				return false
+			}
+			switch calleeName(info, call) {
+			case "kgo.recBuf.resetBatchDrainIdx", "kgo.recBuf.failAllRecords":
+				return true
+			}
+			return false
+		})
+	}
+	path, found := g.FindPath(cl, SearchOpts{
+		Stop:     settles,
+		EdgeOK:   func(from *cfg.Block, k int, to *cfg.Block) bool { return from != condBlk || k == 1 },
+		GoalExit: func(kind ExitKind, last ast.Node) bool { return kind != ExitPanic },
+	})
+	c.Check(!found, rule, f.Key+": first batch is failed or rewound on every path", lit.Pos(), m, "resetBatchDrainIdx or failAllRecords on every path", "a batch that must be retried can leave the retry handler without resetBatchDrainIdx() or failAllRecords() ("+pathStr(path)+"): its drain index stays past it, it is never sent again and its promises never run (Flush hangs)")
 }
 
 func c01once(c *Ctx, m *Module) {
@@ -247,7 +306,10 @@ func c01bufferRecord(c *Ctx, m *Module) {
 			case app && !ab:
 				c.Check(haveApp && tg.Dominates(appLoc, l), rule, cons, r.Pos(), m, "appended only after appendRecord", "reports appended without appendRecord on the path")
 			case !app && ab:
-				under := factMatches(tg.FactsAt(l), func(ft Fact) bool { id, ok := ft.Cond.(*ast.Ident); return ok && id.Name == "abortOnNewBatch" && ft.Val })
+				under := factMatches(tg.FactsAt(l), func(ft Fact) bool {
+					id, ok := ft.Cond.(*ast.Ident)
+					return ok && id.Name == "abortOnNewBatch" && ft.Val
+				})
 				c.Check(under && haveApp && !tg.reachLoc(appLoc, l), rule, cons, r.Pos(), m, "aborted only when asked and before appending", "reports aborted outside the abortOnNewBatch arm or after appending")
 			case !app && !ab:
 				c.Check(haveApp && !tg.reachLoc(appLoc, l), rule, cons, r.Pos(), m, "not appended", "reports not-appended after appendRecord")
@@ -417,8 +479,10 @@ func c01take(c *Ctx, m *Module) {
 					return ok && isCallTo(st.Fn.Info(), call, pb) && promiseBatchRecs(call) == saved
 				})
 			},
-			GoalExit:  func(k ExitKind, last ast.Node) bool { return k != ExitPanic },
-			GoalBlock: func(b *cfg.Block) bool { return b.Kind == cfg.KindRangeLoop || b.Kind == cfg.KindForLoop || b.Kind == cfg.KindForPost },
+			GoalExit: func(k ExitKind, last ast.Node) bool { return k != ExitPanic },
+			GoalBlock: func(b *cfg.Block) bool {
+				return b.Kind == cfg.KindRangeLoop || b.Kind == cfg.KindForLoop || b.Kind == cfg.KindForPost
+			},
 		})
 		c.Check(!lost, rule, cons, st.Node.Pos(), m, "removed records are promised on every path", "records taken out of the batch ("+saved+") can be dropped without promiseBatch")
 	}
@@ -809,7 +873,10 @@ func c01counters(c *Ctx, m *Module) {
 				if okd {
 					g := st.Fn.Graph()
 					l, _ := g.LocOf(st.Node)
-					okd = factMatches(g.FactsAt(l), func(ft Fact) bool { id, ok := ft.Cond.(*ast.Ident); return ok && id.Name == "beforeBuffering" && !ft.Val })
+					okd = factMatches(g.FactsAt(l), func(ft Fact) bool {
+						id, ok := ft.Cond.(*ast.Ident)
+						return ok && id.Name == "beforeBuffering" && !ft.Val
+					})
 				}
 				c.Check(okd, rule, cons, st.Node.Pos(), m, "decremented only in finishRecordPromise for admitted records", "buffered counter decremented outside finishRecordPromise's !beforeBuffering path")
 			default:
